@@ -402,3 +402,131 @@
     //@ERR
     #[kani::stub(XZWriter::prepare_next_block, prepare_stub)]
     fn c18_xz_write_step2_e3_unl() { xz_write_step2(3, false); }
+
+    // ---------------------------------------------------------------- option validation (C19)
+    fn opts_with_filter(ft: FilterType, property: u32) -> XZOptions {
+        let mut o = opts(CheckType::Crc32, 4096);
+        o.filters.push(FilterConfig { filter_type: ft, property });
+        o
+    }
+    /// C19.xz: XZWriter::new with one pre-filter whose property is *any* u32: accepted exactly when the block header can
+    /// express it and the reader will accept it: delta distance in 1..=256, BCJ start offset aligned to the filter's
+    /// instruction size, LZMA2 never as a pre-filter. (write_block_header's encoding of accepted values: c02_xz_bhdr_*.)
+    fn xz_new_validates(ft: FilterType, valid: fn(u32) -> bool) {
+        let p: u32 = vk::any();
+        match XZWriter::new(vk::Sink::<4>::new(), opts_with_filter(ft, p)) {
+            Ok(w) => { assert!(valid(p), "filter property accepted that the block header cannot carry / the reader rejects"); core::mem::forget(w); }
+            Err(e) => { assert!(!valid(p)); assert!(vk::kind_of(&e) == vk::Kind::InvalidInput); }
+        }
+    }
+    #[kani::proof]
+    #[kani::unwind(4)]
+    //@ERR
+    fn c19_xz_new_delta() { xz_new_validates(FilterType::Delta, |p| p >= 1 && p <= 256); }
+    #[kani::proof]
+    #[kani::unwind(4)]
+    //@ERR
+    fn c19_xz_new_bcj_a1() { xz_new_validates(FilterType::BcjX86, |_p| true); }
+    #[kani::proof]
+    #[kani::unwind(4)]
+    //@ERR
+    fn c19_xz_new_bcj_a2() { xz_new_validates(FilterType::BcjARMThumb, |p| p % 2 == 0); xz_new_validates(FilterType::BcjRISCV, |p| p % 2 == 0); }
+    #[kani::proof]
+    #[kani::unwind(4)]
+    //@ERR
+    fn c19_xz_new_bcj_a4() {
+        xz_new_validates(FilterType::BcjARM, |p| p % 4 == 0); xz_new_validates(FilterType::BcjPPC, |p| p % 4 == 0);
+        xz_new_validates(FilterType::BcjSPARC, |p| p % 4 == 0); xz_new_validates(FilterType::BcjARM64, |p| p % 4 == 0);
+    }
+    #[kani::proof]
+    #[kani::unwind(4)]
+    //@ERR
+    fn c19_xz_new_bcj_a16() { xz_new_validates(FilterType::BcjIA64, |p| p % 16 == 0); xz_new_validates(FilterType::LZMA2, |_p| false); }
+
+    /// C02.xz.bhdr / C03.xz.layout: write_block_header for one accepted pre-filter + LZMA2: size byte, flags (2 filters),
+    /// filter id, property size and bytes, 0x21 01 dict byte, zero padding to a multiple of 4, crc32 - equal to what the
+    /// reader's BlockHeader::parse is specified to accept (xz-file-format 3.1).
+    fn xz_block_header_bytes(ft: FilterType, id: u8, p: u32) {
+        let mut w = XZWriter::new(vk::Sink::<32>::new(), opts_with_filter(ft, p)).unwrap();
+        assert!(w.write_block_header().is_ok());
+        let s = w.original_writer.borrow();
+        let b = &s.buf;
+        let mut exp = [0u8; 32];
+        let mut n = 1;
+        exp[n] = 1; n += 1;                       // block flags: 2 filters, no sizes
+        exp[n] = id; n += 1;
+        if id == 0x03 { exp[n] = 1; exp[n + 1] = (p - 1) as u8; n += 2; }
+        else if p == 0 { exp[n] = 0; n += 1; }
+        else { exp[n] = 4; let le = p.to_le_bytes(); exp[n + 1] = le[0]; exp[n + 2] = le[1]; exp[n + 3] = le[2]; exp[n + 4] = le[3]; n += 5; }
+        exp[n] = 0x21; exp[n + 1] = 1; exp[n + 2] = 0; n += 3;     // LZMA2, dict 4096 -> byte 0
+        let total = (n + 4 + 3) / 4 * 4;
+        exp[0] = (total / 4 - 1) as u8;
+        let crc = CRC32.checksum(&exp[..total - 4]).to_le_bytes();
+        exp[total - 4] = crc[0]; exp[total - 3] = crc[1]; exp[total - 2] = crc[2]; exp[total - 1] = crc[3];
+        assert!(s.len == total);
+        let mut i = 0;
+        while i < 20 { if i < total { assert!(b[i] == exp[i]); } i += 1; }
+        drop(s);
+        core::mem::forget(w);
+    }
+    #[kani::proof]
+    #[kani::unwind(22)]
+    //@ERR
+    fn c02_xz_bhdr_delta() { xz_block_header_bytes(FilterType::Delta, 0x03, 256); }
+    #[kani::proof]
+    #[kani::unwind(22)]
+    //@ERR
+    fn c02_xz_bhdr_bcj_offset() { xz_block_header_bytes(FilterType::BcjARM, 0x07, 0x89AB_CDE0); }
+    #[kani::proof]
+    #[kani::unwind(22)]
+    //@ERR
+    fn c02_xz_bhdr_bcj_zero() { xz_block_header_bytes(FilterType::BcjX86, 0x04, 0); }
+
+    /// C19.xz / C18.clamp: XZWriter::new: more than three pre-filters are refused; block size is raised to the dictionary
+    /// size; LZMA2 is appended as the last filter.
+    #[kani::proof]
+    #[kani::unwind(8)]
+    //@ERR
+    fn c19_xz_new_filters_and_block_size() {
+        let nf: usize = vk::any();
+        vk::assume(nf <= 5);
+        let bs: u64 = vk::any();
+        let dict: u32 = vk::any();
+        let mut o = opts(CheckType::None, dict);
+        o.block_size = core::num::NonZeroU64::new(bs);
+        let mut i = 0;
+        while i < 5 { if i < nf { o.filters.push(FilterConfig { filter_type: FilterType::BcjX86, property: 0 }); } i += 1; }
+        match XZWriter::new(vk::Sink::<4>::new(), o) {
+            Err(e) => { assert!(nf > 3); assert!(vk::kind_of(&e) == vk::Kind::InvalidInput); }
+            Ok(w) => {
+                assert!(nf <= 3 && w.options.filters.len() == nf + 1);
+                assert!(w.options.filters[nf].filter_type == FilterType::LZMA2);
+                match w.options.block_size {
+                    None => assert!(bs == 0),
+                    Some(b) => assert!(b.get() == if bs < dict as u64 { dict as u64 } else { bs }),
+                }
+                assert!(!w.header_written && !w.finished && w.index_records.is_empty());
+                core::mem::forget(w);
+            }
+        }
+    }
+
+    /// C19.xz / C02.xz.bhdr: LZMA2 dictionary size byte for every u32: refused below 4 KiB; otherwise the smallest
+    /// representable size >= dict_size (so the reader's window covers the encoder's), 40 <=> 4 GiB - 1.
+    #[kani::proof]
+    #[kani::unwind(42)]
+    //@ERR
+    fn c19_xz_dict_size_byte() {
+        let d: u32 = vk::any();
+        let w = XZWriter::new(vk::Sink::<4>::new(), opts(CheckType::None, 4096)).unwrap();
+        match w.encode_lzma2_dict_size(d) {
+            Err(e) => { assert!(d < 4096 || d > 0xC000_0000); assert!(vk::kind_of(&e) == vk::Kind::InvalidInput); }
+            Ok(prop) => {
+                assert!(d >= 4096 && prop <= 40);
+                let size = |p: u8| -> u64 { if p == 40 { 0xFFFF_FFFF } else { ((2 | (p & 1)) as u64) << (p / 2 + 11) } };
+                assert!(size(prop) >= d as u64);
+                if prop > 0 { assert!(size(prop - 1) < d as u64); }
+            }
+        }
+        core::mem::forget(w);
+    }
